@@ -1076,3 +1076,10 @@ Proof.
   - destruct Hres as (Hl & Hl'). congruence.
 Qed.
 End PBCorollaries.
+
+Lemma c14_pb_invariant : forall (H : Type) mcap pcap (ops : list (pb_op H)) b,
+  Forall (@pb_op_ok H) ops -> pb_run (pb_new H mcap pcap) ops = Some b -> pb_inv b.
+Proof.
+  intros H mcap pcap ops b Hok Hrun.
+  exact (@pb_run_inv H ops _ _ (proj1 (pb_new_inv H mcap pcap)) Hok Hrun).
+Qed.
